@@ -6,6 +6,11 @@ import SpecVerif.Model.Periodogram
 import SpecVerif.Model.Levinson
 import SpecVerif.Model.RealFn
 import SpecVerif.Model.Sides
+import SpecVerif.Model.Arma
+import SpecVerif.Model.Burg
 import SpecVerif.Proofs.Lemmas.Basic
 import SpecVerif.Proofs.Lemmas.DFT
+import SpecVerif.Proofs.Lemmas.WienerKhinchin
 import SpecVerif.Proofs.C01
+import SpecVerif.Proofs.Lemmas.Correlation
+import SpecVerif.Proofs.C09
